@@ -80,14 +80,15 @@ func (l *listener) Listen() error {
 		l.Unlock()
 		return mangos.ErrAddrInUse
 	}
-	l.active = true
-	l.Unlock()
+	// The lock is held across the transport's Listen, so that a concurrent
+	// Close either comes first (and we fail above), or finds the transport
+	// listener bound and closes it; otherwise the address stays bound.
 	if err := l.l.Listen(); err != nil {
-		l.Lock()
-		l.active = false
 		l.Unlock()
 		return err
 	}
+	l.active = true
+	l.Unlock()
 
 	go l.serve()
 	return nil
